@@ -20,6 +20,7 @@ import (
 	"errors"
 	"flag"
 	"fmt"
+	"hash/crc32"
 	"io"
 	"math"
 	"os"
@@ -49,6 +50,7 @@ type registry struct {
 	byType  map[reflect.Type]uint32 // struct type -> id
 	impl    map[reflect.Type][]uint32
 	boxes   []reflect.Type // *XBox decoders discovered through the client
+	vectors []reflect.Type // result-vector helper structs (XVector{Elems []X}) discovered through the client
 }
 
 var (
@@ -812,6 +814,8 @@ func (ci *captureInvoker) Invoke(ctx context.Context, input bin.Encoder, output 
 	return errors.New("captured")
 }
 
+var vectorTypes []reflect.Type
+
 func discoverBoxes() []reflect.Type {
 	ci := &captureInvoker{}
 	cl := reflect.ValueOf(tg.NewClient(ci))
@@ -834,6 +838,13 @@ func discoverBoxes() []reflect.Type {
 	}
 	seen := map[reflect.Type]bool{}
 	var res []reflect.Type
+	for _, t := range ci.out {
+		if !seen[t] && strings.HasSuffix(t.Name(), "Vector") && t.Kind() == reflect.Struct && t.NumField() == 1 && t.Field(0).Name == "Elems" && t.Field(0).Type.Kind() == reflect.Slice {
+			seen[t] = true
+			vectorTypes = append(vectorTypes, t)
+		}
+	}
+	sort.Slice(vectorTypes, func(i, j int) bool { return vectorTypes[i].Name() < vectorTypes[j].Name() })
 	for _, t := range ci.out {
 		if !seen[t] && strings.HasSuffix(t.Name(), "Box") && t.Kind() == reflect.Struct && t.NumField() == 1 && t.Field(0).Type.Kind() == reflect.Interface {
 			seen[t] = true
@@ -902,6 +913,132 @@ func (h *H) dirtyCase(reg *registry, id uint32, seed uint64, wantCoq bool) {
 		} else if x != y {
 			c.Nontrivial(fmt.Sprintf("dirty:%d:%d", reg.sch, id))
 			c.Violate("stale-state-on-reused-receiver", fmt.Sprintf("%s.%s: Decode into a receiver that held another value differs from Decode into a fresh value: %s", reg.name, name, firstDiff(y, x)), shard, index, rp)
+		}
+	}
+}
+
+// ---------- result-vector helper structs ----------
+
+// vectorID recomputes the synthetic constructor id that harness/cmd/tlschema gives to the
+// pseudo-constructor of a result-vector box, from the element type alone.
+func vectorID(reg *registry, elem reflect.Type) (uint32, bool) {
+	var key string
+	switch {
+	case elem.Kind() == reflect.Int:
+		key = "vec:TyInt"
+	case elem.Kind() == reflect.Int64:
+		key = "vec:TyLong"
+	case elem.Kind() == reflect.String:
+		key = "vec:TyString"
+	case elem.Kind() == reflect.Float64:
+		key = "vec:TyDouble"
+	case elem.Kind() == reflect.Bool:
+		key = "vec:TyBool"
+	case elem.Kind() == reflect.Slice && elem.Elem().Kind() == reflect.Uint8:
+		key = "vec:TyBytes"
+	case elem.Kind() == reflect.Struct:
+		id, ok := reg.byType[elem]
+		if !ok {
+			return 0, false
+		}
+		key = fmt.Sprintf("vec:ctor:%d", id)
+	case elem.Kind() == reflect.Interface:
+		ids := reg.implementers(elem)
+		if len(ids) == 0 {
+			return 0, false
+		}
+		key = fmt.Sprintf("vec:class:%d", ids[0]) // reg.ids is sorted
+	default:
+		return 0, false
+	}
+	return crc32.ChecksumIEEE([]byte(key)), true
+}
+
+// vectorBox: one value of a result-vector struct (Encode has no constructor id), its decoding,
+// and mutated encodings, against the pseudo-constructor of the schema term addressed bare.
+func (h *H) vectorBox(reg *registry, t reflect.Type, wantCoq bool) {
+	c := h.c
+	sid, ok := vectorID(reg, t.Field(0).Type.Elem())
+	if !ok {
+		c.Note("vector box " + t.Name() + ": element type not understood")
+		return
+	}
+	c.Obs.Evaluations++
+	c.Count("vector-box:" + reg.name)
+	g := &gen{r: c.Rng.Fork(), reg: reg, canonical: true}
+	pv := reflect.New(t)
+	n := g.r.Range(0, 3)
+	if n > 0 {
+		sl := reflect.MakeSlice(t.Field(0).Type, n, n)
+		for i := 0; i < n; i++ {
+			g.fillValue(sl.Index(i), 2)
+			switch sl.Index(i).Kind() {
+			case reflect.Struct:
+				g.canonicalize(sl.Index(i).Addr(), 1)
+			case reflect.Interface:
+				if !sl.Index(i).IsNil() {
+					g.canonicalize(sl.Index(i).Elem(), 1)
+				}
+			}
+		}
+		pv.Elem().Field(0).Set(sl)
+	}
+	o := pv.Interface().(bin.Object)
+	project := func(v reflect.Value) string {
+		return fmt.Sprintf("(VObj %d [%s])", sid, (&proj{}).val(v.Elem().Field(0), false))
+	}
+	rp := replay{Mode: "vector-box", Sch: reg.sch, Box: t.Name()}
+	valS := project(pv)
+	enc := goEncode(o, kBoxed)
+	decode := func(data []byte) decOut {
+		tgt := reflect.New(t)
+		buf := &bin.Buffer{Buf: append([]byte(nil), data...)}
+		d := decOut{obj: tgt.Interface().(bin.Object)}
+		d.panicked, d.pval = hx.Recover(func() { d.err = d.obj.Decode(buf) })
+		d.unread = len(buf.Buf)
+		return d
+	}
+	dobsV := func(d decOut) string {
+		switch {
+		case d.panicked:
+			return "DPanic"
+		case d.err != nil:
+			return fmt.Sprintf("(DErr %d)", errClass(d.err))
+		}
+		gv := project(reflect.ValueOf(d.obj))
+		re := goEncode(d.obj, kBoxed)
+		return fmt.Sprintf("(DOk %s %d (Some %s))", hx.Bytes(re.bytes), d.unread, gv)
+	}
+	shard, index := -1, 0
+	if wantCoq {
+		shard, index = c.Case(fmt.Sprintf("CEnc %d 1 %d %s %s", reg.sch, sid, valS, eobs(enc)), map[string]interface{}{"replay": rp, "type": t.Name(), "stream": "vector-box"})
+	}
+	if enc.panicked || enc.err != nil {
+		c.Violate("canonical-value-not-encodable:"+t.Name(), fmt.Sprintf("%s.%s: Encode failed: %v %v", reg.name, t.Name(), enc.err, enc.pval), shard, index, rp)
+		return
+	}
+	d := decode(enc.bytes)
+	if wantCoq {
+		c.Case(fmt.Sprintf("CDec %d 1 %d %s %s", reg.sch, sid, hx.Bytes(enc.bytes), dobsV(d)), map[string]interface{}{"replay": rp, "stream": "vector-box-dec"})
+	}
+	switch {
+	case d.panicked:
+		c.Violate("decode-panic:other", fmt.Sprintf("%s.%s: Decode of its own encoding panicked: %v", reg.name, t.Name(), d.pval), shard, index, rp)
+	case d.err != nil || d.unread != 0 || project(reflect.ValueOf(d.obj)) != valS && n > 0:
+		c.Violate("roundtrip-fails:"+t.Name(), fmt.Sprintf("%s.%s: Decode(Encode(v)) = %v, %d unread, value equal: %v", reg.name, t.Name(), d.err, d.unread, project(reflect.ValueOf(d.obj)) == valS), shard, index, rp)
+	default:
+		c.Nontrivial(fmt.Sprintf("vecbox:%s:%d", t.Name(), len(enc.bytes)))
+	}
+	// mutants: truncations and count boundaries of the header (vector id, count)
+	for _, m := range [][]byte{enc.bytes[:len(enc.bytes)/2], enc.bytes[:4], append(append([]byte(nil), enc.bytes[:4]...), 0xff, 0xff, 0xff, 0xff),
+		append(append([]byte(nil), enc.bytes[:4]...), 0xff, 0xff, 0xff, 0x7f), append([]byte{1, 2, 3, 4}, enc.bytes...)} {
+		c.Obs.Evaluations++
+		dm := decode(m)
+		if wantCoq {
+			c.Case(fmt.Sprintf("CDec %d 1 %d %s %s", reg.sch, sid, hx.Bytes(m), dobsV(dm)), map[string]interface{}{"replay": rp, "stream": "vector-box-mutant"})
+		}
+		if dm.panicked {
+			c.Violate("decode-panic:other", fmt.Sprintf("%s.%s: Decode(%x) panicked: %v", reg.name, t.Name(), m, dm.pval), -1, 0, rp)
 		}
 	}
 }
@@ -1298,6 +1435,7 @@ func main() {
 		newRegistry("e2e", 2, e2e.TypesConstructorMap(), e2e.ClassConstructorsMap()),
 	}
 	h.regs[0].boxes = discoverBoxes()
+	h.regs[0].vectors = vectorTypes
 	h.watchdog(90 * time.Second)
 
 	var rp replay
@@ -1338,8 +1476,8 @@ func main() {
 
 	// cross-check: every interface used by a field is a class of ClassConstructorsMap
 	rounds := c.N(1, 50)
-	coqValues := c.N(170, 2500)
-	coqMutants := c.N(110, 1500)
+	coqValues := c.N(120, 2500)
+	coqMutants := c.N(80, 1500)
 	total := 0
 	for _, reg := range h.regs {
 		total += len(reg.ids)
@@ -1376,6 +1514,15 @@ func main() {
 				n++
 			}
 		}
+	}
+	// result-vector helper structs (IntVector, UserClassVector, ...): Encode without constructor id
+	for _, reg := range h.regs {
+		for i, t := range reg.vectors {
+			for k := 0; k < c.N(2, 40); k++ {
+				h.vectorBox(reg, t, k == 0 && i%2 == 0)
+			}
+		}
+		c.Count(fmt.Sprintf("vector-box-types:%s=%d", reg.name, len(reg.vectors)))
 	}
 	// reused receivers: a sample of the constructors of tg, all of mt and e2e
 	{
@@ -1512,7 +1659,7 @@ func main() {
 		h.deep(1000000)
 	}
 	c.Note("gen/_template/decode.tmpl: the inner loop of a double vector reads `for innerIndex := 0; innerIndex < innerLen; innerLen++` (increments the bound instead of the index: it would spin until innerLen overflows). No constructor of telegram.tl, mt.tl or encrypted.tl has a Vector<Vector<..>> field (harness/cmd/tlschema refuses such a schema), so the generated packages do not contain that loop.")
-	c.Note(fmt.Sprintf("result-vector boxes (IntVector etc., Encode without id) and the %d XBox decoders: the former are not in TypesConstructorMap and not part of the schema term; the latter are exercised through Decode<Class>", len(h.regs[0].boxes)))
+	c.Note(fmt.Sprintf("%d result-vector helper structs (IntVector ...) are pseudo-constructors of the schema term, addressed bare (stream vector-box); the %d XBox decoders are exercised through Decode<Class>", len(h.regs[0].vectors), len(h.regs[0].boxes)))
 	c.Obs.Rule = "evaluation = one generated Go value (Encode, Decode(Encode), re-encode) or one byte string (Decode under recover, re-encode, decode again); every constructor of tg/mt/e2e TypesConstructorMap at least once per round; non-trivial = distinct (schema, constructor, encoded length) that encoded or decoded successfully"
 	c.Finish()
 }
